@@ -19,7 +19,8 @@ extern int vf_failed;
 extern int vf_assume_violated;
 void vf_fail(const char *d);
 void vf_rand_bytes(void *p, unsigned long n);
-#define __CPROVER_assume(c)  do { if (!(c)) { vf_assume_violated = 1; printf("REPLAY-ASSUME-VIOLATED %s\n", #c); vf_exit(); } } while (0)
+extern int vf_quiet;
+#define __CPROVER_assume(c)  do { if (!(c)) { vf_assume_violated = 1; if (!vf_quiet) printf("REPLAY-ASSUME-VIOLATED %s\n", #c); vf_exit(); } } while (0)
 #define __CPROVER_assert(c, d) do { if (!(c)) vf_fail(d); } while (0)
 #define __CPROVER_cover(c) ((void)0)
 void vf_exit(void);
